@@ -24,13 +24,29 @@ type State struct {
 
 // Opcode the current interpreter.ParsedOpcode from the
 // threads program counter.
+//
+// A snapshot taken while the program counter has nothing to point at
+// (an empty script) yields the zero ParsedOpcode.
 func (s *State) Opcode() ParsedOpcode {
+	if !s.hasOpcode() {
+		return ParsedOpcode{}
+	}
 	return s.Scripts[s.ScriptIdx][s.OpcodeIdx]
 }
 
-// RemainingScript the remaining script to be executed.
+// RemainingScript the remaining script to be executed
+// (nothing, for a snapshot of an empty script).
 func (s *State) RemainingScript() ParsedScript {
+	if !s.hasOpcode() {
+		return nil
+	}
 	return s.Scripts[s.ScriptIdx][s.OpcodeIdx:]
+}
+
+// hasOpcode reports whether the snapshot's program counter points at an opcode.
+func (s *State) hasOpcode() bool {
+	return s.ScriptIdx >= 0 && s.ScriptIdx < len(s.Scripts) &&
+		s.OpcodeIdx >= 0 && s.OpcodeIdx < len(s.Scripts[s.ScriptIdx])
 }
 
 // StateHandler interfaces getting and applying state.
